@@ -93,6 +93,7 @@ impl SubRule {
         let mut cur_index = SegPos::new(0, 0);
         // TODO(girv): `$ > *` or any broad deletion rule without context/exception should  give a warning to the user
         loop {
+            #[cfg(feature = "verif")] crate::verif::tick(100);
             self.alphas.borrow_mut().clear();
             self.variables.borrow_mut().clear();
             let (res, mut next_index) = self.input_match_at(&word, cur_index)?;
@@ -159,6 +160,7 @@ impl SubRule {
         };
         let mut si = 0;
         while si < states.len() {
+            #[cfg(feature = "verif")] crate::verif::tick(101);
             if !self.context_match(states, &mut si, word_rev, &mut start_pos, false, ins_match_before)? {
                 is_match = false;
                 if is_context { break; }
@@ -181,6 +183,7 @@ impl SubRule {
         };
         let mut si = 0;
         while si < states.len() {
+            #[cfg(feature = "verif")] crate::verif::tick(102);
             if !self.context_match(states, &mut si, word, &mut start_pos, true, ins_match_before)? {
                 is_match = false;
                 if is_context { break; }
@@ -224,6 +227,7 @@ impl SubRule {
     }
 
     fn context_match(&self, states: &[Item], state_index: &mut usize, word: &Word, pos: &mut SegPos, forwards: bool, ins_match_before: bool) -> Result<bool, RuleRuntimeError> {
+        #[cfg(feature = "verif")] crate::verif::tick(103);
         let state = &states[*state_index];
         match &state.kind {
             ParseElement::WordBound => Ok(word.out_of_bounds(*pos)),
@@ -331,6 +335,7 @@ impl SubRule {
         pos.increment(word);
 
         while pos.syll_index == syll_index {
+            #[cfg(feature = "verif")] crate::verif::tick(104);
             let back_pos = *pos;
             let back_index = *index;
             let back_alphas = self.alphas.borrow().clone();
@@ -338,6 +343,7 @@ impl SubRule {
             
             let mut m = true;
             while *index < items.len() {
+                #[cfg(feature = "verif")] crate::verif::tick(105);
                 if pos.syll_index != syll_index {
                     m = false;
                     break;
@@ -387,6 +393,7 @@ impl SubRule {
         pos.increment(word);
 
         while word.in_bounds(*pos) {
+            #[cfg(feature = "verif")] crate::verif::tick(106);
             let back_pos = *pos;
             let back_state = *state_index;
             let back_alphas = self.alphas.borrow().clone();
@@ -394,6 +401,7 @@ impl SubRule {
 
             let mut m = true;
             while *state_index < states.len() {
+                #[cfg(feature = "verif")] crate::verif::tick(107);
                 if !self.context_match(states, state_index, word, pos, forwards, false)? {
                     m = false;
                     break;
@@ -416,6 +424,7 @@ impl SubRule {
     fn match_opt_states(&self, opt_states: &[Item], word: &Word, pos: &mut SegPos, forwards: bool) -> Result<bool, RuleRuntimeError> {
         let mut si = 0;
         while si < opt_states.len() {
+            #[cfg(feature = "verif")] crate::verif::tick(108);
             if !self.context_match(opt_states, &mut si, word, pos, forwards, false)? {
                 return Ok(false)
             }
@@ -433,6 +442,7 @@ impl SubRule {
         
         let mut index = 0;
         while index < match_min {
+            #[cfg(feature = "verif")] crate::verif::tick(109);
             if !self.match_opt_states(opt_states, word, pos, forwards)? {
                 *pos = back_pos;
                 *self.alphas.borrow_mut() = back_alphas;
@@ -450,6 +460,7 @@ impl SubRule {
 
         let mut m = true;
         while *state_index < states.len() {
+            #[cfg(feature = "verif")] crate::verif::tick(110);
             if !self.context_match(states, state_index, word, pos, forwards, false)? {
                 m = false;
                 break;
@@ -467,10 +478,12 @@ impl SubRule {
         
         let max = match_max.unwrap_or(usize::MAX);
         while index < max {
+            #[cfg(feature = "verif")] crate::verif::tick(111);
             *state_index = back_state;
             if self.match_opt_states(opt_states, word, pos, forwards)? {
                 let mut m = true;
                 while *state_index < states.len() {
+                    #[cfg(feature = "verif")] crate::verif::tick(112);
                     if !self.context_match(states, state_index, word, pos, forwards, false)? {
                         m = false;
                         break;
@@ -777,6 +790,7 @@ impl SubRule {
 
                 let mut pos = SegPos::new(0, 0);
                 while res_word.in_bounds(pos) {
+                    #[cfg(feature = "verif")] crate::verif::tick(113);
                     self.alphas.borrow_mut().clear();
                     self.variables.borrow_mut().clear();
                     match self.insertion_match(&res_word, pos)? {
@@ -884,12 +898,14 @@ impl SubRule {
         
         // FIXME: This is scuffed
         'outer: while word.in_bounds(start_pos) {
+            #[cfg(feature = "verif")] crate::verif::tick(114);
             match self.insertion_after(bef_states, word, start_pos)? {
                 Some(mut ins_pos) => {
                     let mut pos = ins_pos;
                     let mut state_index = 0;
                     start_pos = ins_pos;
                     while state_index < aft_states.len() {
+                        #[cfg(feature = "verif")] crate::verif::tick(115);
                         if !self.context_match(aft_states, &mut state_index, word, &mut pos, true, false)? {
                             match bef_states.last().unwrap().kind {
                                 ParseElement::WordBound => return Ok(None),
@@ -933,6 +949,7 @@ impl SubRule {
         }
 
         while word.in_bounds(cur_pos) {
+            #[cfg(feature = "verif")] crate::verif::tick(116);
             if self.context_match(states, &mut state_index, word, &mut cur_pos, true, false)? {
                 if state_index >= states.len() - 1 {
                     return Ok(Some(cur_pos))
@@ -976,6 +993,7 @@ impl SubRule {
         let mut match_begin = None;
 
         while word.in_bounds(cur_pos) {
+            #[cfg(feature = "verif")] crate::verif::tick(117);
             let before_pos = cur_pos;
             if self.context_match(states, &mut state_index, word, &mut cur_pos, true, true)? {
                 if match_begin.is_none() {
@@ -1990,6 +2008,7 @@ impl SubRule {
         let mut captures: Vec<_> = Vec::new();
 
         while word.in_bounds(cur_index) {
+            #[cfg(feature = "verif")] crate::verif::tick(118);
             if self.input_match_item(&mut captures, &mut cur_index, &mut state_index, word, &self.input)? {
                 // if we have a full match
                 if state_index > self.input.len() - 1 { 
@@ -2047,6 +2066,7 @@ impl SubRule {
         word: &Word, 
         states: &[Item], 
     ) -> Result<bool, RuleRuntimeError> {
+        #[cfg(feature = "verif")] crate::verif::tick(119);
         let err_pos = states[*state_index].position;
         match &states[*state_index].kind {
             ParseElement::Variable(vt, m) => if self.input_match_var(captures, state_index, vt, m, word, seg_pos, err_pos)? {
@@ -2162,6 +2182,7 @@ impl SubRule {
         pos.increment(word);
 
         while word.in_bounds(*pos) {
+            #[cfg(feature = "verif")] crate::verif::tick(120);
             let back_pos = *pos;
             let back_state = *state_index;
             let back_alphas = self.alphas.borrow().clone();
@@ -2169,6 +2190,7 @@ impl SubRule {
 
             let mut m = true;
             while *state_index < states.len() {
+                #[cfg(feature = "verif")] crate::verif::tick(121);
                 if !self.input_match_item(captures, pos, state_index, word, states)? {
                     m = false;
                     break;
